@@ -9,6 +9,7 @@ require (
 
 require (
 	github.com/emirpasic/gods v1.12.0 // indirect
+	github.com/pkg/errors v0.9.1 // indirect
 	github.com/status-im/keycard-go v0.0.0-20190424133014-d95853db0f48 // indirect
 	golang.org/x/crypto v0.0.0-20200622213623-75b288015ac9 // indirect
 )
